@@ -333,7 +333,8 @@ func vfGenHTTP(t *rapid.T, w *vfC08World) (*vfC08Req, string) {
 		}
 		opt := map[string]any{}
 		for _, k := range rapid.SliceOfNDistinct(rapid.SampledFrom(keys), 1, 3, rapid.ID[string]).Draw(t, "optKeys") {
-			opt[k] = rapid.SampledFrom([]any{nil, true, false, 0, 1, -1, 1.5, 1e30, "", "json", "base64", "base58", "finalized", "full", "none", "signatures", "accounts", []any{}, map[string]any{}, w.sigs[0]}).Draw(t, "optVal")
+			// null is the value most likely to slip through a type switch: a quarter of the draws
+			opt[k] = rapid.SampledFrom([]any{nil, nil, nil, nil, nil, nil, true, false, 0, 1, -1, 1.5, 1e30, "", "json", "base64", "base58", "finalized", "full", "none", "signatures", "accounts", []any{}, map[string]any{}, w.sigs[0]}).Draw(t, "optVal")
 		}
 		req["params"] = append(p, opt)
 	case "no-params":
